@@ -1,6 +1,6 @@
 (** Proofs about Model/BpAgent.v used by Props/C10.v and Props/C19.v. *)
 From Coq Require Import ZArith NArith List Bool Lia ZifyBool ZifyN ZifyNat.
-From DTN Require Import Gen.ReportTable Model.BpAgent.
+From DTN Require Import Gen.ReportTable Gen.RecvTail Model.BpAgent.
 Import ListNotations.
 Local Open Scope N_scope.
 
@@ -307,9 +307,10 @@ Section WithMatch.
       let ev2 := if mem AFwd acts then snd (do_fwd a1 b acts rsn) else [] in
       (a2, (if c then [EvDeliver b] else []) ++ ev1 ++ ev2).
   Proof.
-    unfold BpAgent.final. destruct (mem ADel acts).
+    (* [tail_delete_returns] comes from the source: the delete branch of recv_bundle returns *)
+    unfold BpAgent.final, Gen.RecvTail.tail_delete_returns. destruct (mem ADel acts); cbn [andb].
     - destruct (finish a b b acts rsn). reflexivity.
-    - destruct (mem ADlv acts).
+    - cbn [app]. destruct (mem ADlv acts).
       + destruct (finish a b b acts rsn) as [a1 ev1]. cbn [fst snd].
         destruct (mem AFwd acts); [destruct (do_fwd a1 b acts rsn)|]; reflexivity.
       + cbn [fst snd]. destruct (mem AFwd acts); [destruct (do_fwd a b acts rsn)|]; reflexivity.
@@ -428,6 +429,10 @@ Section WithMatch.
 
   Definition seen_add (a : agent) (b : bundle) : agent := set_seen a (a_seen a ++ [ident_of b]).
 
+  (** The action record when the RX chain has run to its end (no reassembly). *)
+  Definition chain_acts (a : agent) (b : bundle) : list action :=
+    app_step a b (fst (sec_step b (route_actions a b))).
+
   Lemma recv_core_accepted a b :
     accepted a b = true ->
     recv_core a b =
@@ -441,21 +446,23 @@ Section WithMatch.
          None)
       end
     else
-      (fst (final (seen_add a b) b (fst (sec_step b (route_actions a b))) (snd (sec_step b (route_actions a b)))
+      (fst (final (seen_add a b) b (chain_acts a b) (snd (sec_step b (route_actions a b)))
                   (mem ADlv (fst (sec_step b (route_actions a b))))),
-       snd (final (seen_add a b) b (fst (sec_step b (route_actions a b))) (snd (sec_step b (route_actions a b)))
+       snd (final (seen_add a b) b (chain_acts a b) (snd (sec_step b (route_actions a b)))
                   (mem ADlv (fst (sec_step b (route_actions a b))))),
        None).
   Proof.
     intros H. unfold BpAgent.recv_core. rewrite H. cbn [negb].
     change (BpAgent.route_actions matches (set_seen a (a_seen a ++ [ident_of b])) b) with (route_actions a b).
     change (a_reasm (set_seen a (a_seen a ++ [ident_of b]))) with (a_reasm a).
+    change (app_step (set_seen a (a_seen a ++ [ident_of b])) b) with (app_step a b).
+    fold (chain_acts a b).
     fold (seen_add a b).
     destruct (mem ADlv (route_actions a b) && is_frag b).
     - destruct (reasm_step (a_reasm a) b) as [rs res]. cbn [fst snd].
       destruct res; try reflexivity.
       destruct (final (set_reasm (seen_add a b) rs) b (route_actions a b) None false). reflexivity.
-    - destruct (final (seen_add a b) b (fst (sec_step b (route_actions a b))) (snd (sec_step b (route_actions a b)))
+    - destruct (final (seen_add a b) b (chain_acts a b) (snd (sec_step b (route_actions a b)))
                       (mem ADlv (fst (sec_step b (route_actions a b))))). reflexivity.
   Qed.
 
@@ -650,6 +657,23 @@ Section WithMatch.
     - rewrite (route_actions_routed a b L). destruct (rx_action a b) as [[]|]; cbn; intros H; try discriminate; reflexivity.
   Qed.
 
+  Lemma app_step_nonlocal a b acts : local_dest a b = false -> app_step a b acts = acts.
+  Proof.
+    unfold local_dest, app_step. intros H. apply orb_false_iff in H. destruct H as [H _]. rewrite H.
+    rewrite andb_false_r. reflexivity.
+  Qed.
+
+  Lemma mem_app_step x a b acts : x <> ADel -> mem x (app_step a b acts) = mem x acts.
+  Proof.
+    intros Hx. unfold app_step.
+    destruct (b_refuse b && mem ADlv acts && (b_dst b =? a_node a) && negb (is_frag b)); [|reflexivity].
+    rewrite mem_add. destruct (action_eqb x ADel) eqn:E; [|apply orb_false_r].
+    apply action_eqb_eq in E. contradiction.
+  Qed.
+
+  Lemma chain_acts_nonlocal a b : local_dest a b = false -> chain_acts a b = fst (sec_step b (route_actions a b)).
+  Proof. intros H. unfold chain_acts. apply app_step_nonlocal. exact H. Qed.
+
   (** Deliveries and transmissions of one processing, as a function of the routing decision. *)
   Lemma recv_core_outcome a b :
     accepted a b = true ->
@@ -657,7 +681,7 @@ Section WithMatch.
     let acts0 := route_actions a b in
     if mem ADlv acts0 && is_frag b then has_deliver evs = false /\ has_tx evs = false
     else has_deliver evs = mem ADlv (fst (sec_step b acts0))
-         /\ has_tx evs = negb (mem ADel (fst (sec_step b acts0))) && mem AFwd (fst (sec_step b acts0))
+         /\ has_tx evs = negb (mem ADel (chain_acts a b)) && mem AFwd (chain_acts a b)
                           && negb (prep_fails b) && tx_ok a b.
   Proof.
     intros Hacc. cbv zeta. rewrite (recv_core_accepted a b Hacc).
@@ -681,6 +705,7 @@ Section WithMatch.
   Proof.
     intros Hacc Hloc. cbv zeta.
     pose proof (recv_core_outcome a b Hacc) as H. cbv zeta in H.
+    rewrite (chain_acts_nonlocal a b Hloc) in H.
     rewrite (route_actions_routed a b Hloc) in H.
     unfold BpAgent.sec_step in H.
     destruct (rx_action a b) as [[]|] eqn:Hact; cbn in H.
@@ -715,9 +740,11 @@ Section WithMatch.
   Proof.
     intros Hacc Hloc Hf. cbv zeta.
     pose proof (recv_core_outcome a b Hacc) as H. cbv zeta in H.
+    unfold chain_acts in H. rewrite (mem_app_step AFwd) in H by discriminate.
     rewrite (route_actions_local a b Hloc) in H. unfold is_frag in H. rewrite Hf in H.
-    unfold BpAgent.sec_step in H. cbn in H.
-    destruct (b_sec b); cbn in H; destruct H as [H1 H2]; rewrite H1, H2; split; try reflexivity; split; intros; congruence.
+    unfold BpAgent.sec_step in H. cbn in H. rewrite ?andb_false_r in H. cbn in H.
+    destruct (b_sec b); cbn in H; destruct H as [H1 H2]; rewrite H1, H2, ?andb_false_r; cbn [andb];
+      split; try reflexivity; split; intros; congruence.
   Qed.
 
   Theorem no_route_no_action a b :
@@ -725,6 +752,7 @@ Section WithMatch.
     snd (fst (recv_core a b)) = [] /\ snd (recv_core a b) = None.
   Proof.
     intros Hacc Hloc Hact. rewrite (recv_core_accepted a b Hacc).
+    rewrite (chain_acts_nonlocal a b Hloc).
     rewrite (route_actions_routed a b Hloc), Hact. cbn [mem existsb action_eqb orb andb].
     unfold BpAgent.sec_step. destruct (b_sec b); cbn [mem existsb action_eqb orb fst snd];
       rewrite final_eq; cbn; auto.
@@ -867,7 +895,7 @@ Section WithMatch.
       /\ ( (mem ADlv (route_actions a b) && is_frag b = true
              /\ acts = route_actions a b /\ rsn = None /\ c = false)
          \/ (mem ADlv (route_actions a b) && is_frag b = false
-             /\ acts = fst (sec_step b (route_actions a b)) /\ rsn = snd (sec_step b (route_actions a b))
+             /\ acts = chain_acts a b /\ rsn = snd (sec_step b (route_actions a b))
              /\ c = mem ADlv (fst (sec_step b (route_actions a b)))) ).
   Proof.
     destruct (accepted a b) eqn:Hacc.
@@ -951,11 +979,15 @@ Section WithMatch.
     mem ADlv (route_actions a b) && is_frag b = false ->
     (forall k, send_path a (b_dst b) (b_size b) (has_flag (b_flags b) FLAG_NO_FRAGMENT) (is_frag b) (b_fragfeas b)
                <> SentFrags k false) ->
+    b_refuse b = false ->
     forall s, asserted r s = requested b s && occurred (snd (fst (recv_core a b))) s.
   Proof.
-    intros Hrep Hnf Hnc s.
+    intros Hrep Hnf Hnc Hnr s.
     destruct (recv_core_report a b r Hrep) as (_ & a' & acts & rsn & c & Hev & _ & Htx' & [(Hc & _)|(_ & Ha & Hr & Hcc)]).
     { rewrite Hnf in Hc. discriminate. }
+    assert (Hca : chain_acts a b = fst (sec_step b (route_actions a b)))
+      by (unfold chain_acts, app_step; rewrite Hnr; reflexivity).
+    rewrite Hca in Ha.
     rewrite Hev in *.
     pose proof (final_has_deliver a' b acts rsn c) as Hd.
     pose proof (final_has_tx a' b acts rsn c) as Ht.
@@ -1024,15 +1056,15 @@ Section WithMatch.
     accepted a b = true ->
     mem ADlv (route_actions a b) && is_frag b = false ->
     b_rpt b <> EID_NONE -> requested b ARecv = true ->
-    mem ADel (fst (sec_step b (route_actions a b))) || mem ADlv (fst (sec_step b (route_actions a b)))
-      || mem AFwd (fst (sec_step b (route_actions a b))) = true ->
+    mem ADel (chain_acts a b) || mem ADlv (chain_acts a b) || mem AFwd (chain_acts a b) = true ->
     exists e, In e (snd (fst (recv_core a b))) /\ is_report_ev e = true.
   Proof.
     intros Hacc Hnf Hr Hq Hdisp.
     rewrite (recv_core_accepted a b Hacc), Hnf. cbn [fst snd].
-    set (acts := fst (sec_step b (route_actions a b))) in *.
+    assert (Hm : mem ARecv (chain_acts a b) = true)
+      by (unfold chain_acts; rewrite mem_app_step by discriminate; apply mem_recv_sec).
+    set (acts := chain_acts a b) in *.
     set (rsn := snd (sec_step b (route_actions a b))).
-    assert (Hm : mem ARecv acts = true) by apply mem_recv_sec.
     rewrite final_eq.
     destruct (mem ADel acts) eqn:Hdel; cbn [snd].
     - destruct (finish_attempt (seen_add a b) b b acts rsn Hr Hm Hq) as (e & He & Hk).
@@ -1054,6 +1086,117 @@ Section WithMatch.
         exists e. split; [|exact Hk].
         repeat (apply in_or_app; right). exact He.
   Qed.
+
+  (** ** At most one finish, one delivery, one transmission per received bundle *)
+
+  Definition count (p : event -> bool) (evs : list event) : nat := length (filter p evs).
+  Definition is_deliver_ev (e : event) : bool := match e with EvDeliver _ => true | _ => false end.
+  Definition is_tx_ev (e : event) : bool := match e with EvTx _ _ _ | EvFrags _ _ _ => true | _ => false end.
+
+  Lemma count_app p x y : count p (x ++ y) = (count p x + count p y)%nat.
+  Proof. unfold count. rewrite filter_app, app_length. reflexivity. Qed.
+
+  Lemma count_le_length p x : (count p x <= length x)%nat.
+  Proof. unfold count. induction x as [|e x IH]; cbn; [lia|]. destruct (p e); cbn; lia. Qed.
+
+  Lemma count_none p x : (forall e, In e x -> p e = false) -> count p x = 0%nat.
+  Proof.
+    unfold count. induction x as [|e x IH]; intros H; cbn; [reflexivity|].
+    rewrite (H e (or_introl eq_refl)). apply IH. intros e' He'. apply H. right. exact He'.
+  Qed.
+
+  Lemma finish_counts a sub cur acts rsn :
+    (count is_report_ev (snd (finish a sub cur acts rsn)) <= 1)%nat
+    /\ count is_deliver_ev (snd (finish a sub cur acts rsn)) = 0%nat
+    /\ count is_tx_ev (snd (finish a sub cur acts rsn)) = 0%nat.
+  Proof.
+    destruct (finish_shape a sub cur acts rsn) as [[H _]|[r [_ [_ [[k [H _]]|[[k H]|[H _]]]]]]]; rewrite H; cbn; lia.
+  Qed.
+
+  Lemma fwd_plan_pre_len a b acts rsn : (length (plan_pre (fwd_plan a b acts rsn)) <= 1)%nat.
+  Proof.
+    unfold plan_pre, BpAgent.fwd_plan.
+    destruct (b_prep b =? 1); [cbn; lia|].
+    destruct (negb (b_time b =? 0) && (b_prep b =? 2)); [cbn; lia|].
+    match goal with |- context [match ?x with SentWhole _ => _ | SentFrags _ _ => _ | SendRaise => _ end] => destruct x as [k|k [|]|] end;
+      cbn; lia.
+  Qed.
+
+  Lemma do_fwd_counts a b acts rsn :
+    (count is_report_ev (snd (do_fwd a b acts rsn)) <= 1)%nat
+    /\ count is_deliver_ev (snd (do_fwd a b acts rsn)) = 0%nat
+    /\ (count is_tx_ev (snd (do_fwd a b acts rsn)) <= 1)%nat.
+  Proof.
+    rewrite do_fwd_eq. cbn [snd]. rewrite !count_app.
+    destruct (finish_counts (plan_agent (fwd_plan a b acts rsn)) b (plan_cur (fwd_plan a b acts rsn))
+                            (plan_acts (fwd_plan a b acts rsn)) (plan_reason (fwd_plan a b acts rsn))) as (F1 & F2 & F3).
+    destruct (fwd_plan_spec a b acts rsn) as (_ & _ & _ & _ & _ & _ & _ & _ & Hd & _ & Hnr & _).
+    rewrite (count_none is_report_ev _ Hnr), F2, F3.
+    pose proof (count_le_length is_tx_ev (plan_pre (fwd_plan a b acts rsn))) as L1.
+    pose proof (fwd_plan_pre_len a b acts rsn) as L2.
+    assert (D0 : count is_deliver_ev (plan_pre (fwd_plan a b acts rsn)) = 0%nat).
+    { apply count_none. intros e He. destruct e; try reflexivity.
+      exfalso.
+      assert (Hx : has_deliver (plan_pre (fwd_plan a b acts rsn)) = true)
+        by (unfold has_deliver; apply existsb_exists; eexists; split; [exact He|reflexivity]).
+      congruence. }
+    rewrite D0. lia.
+  Qed.
+
+  (** For EVERY action record: when 'delete' is in it the bundle is finished once and nothing else happens
+      (also when 'deliver' or 'forward' are in it too); otherwise one finish per 'deliver' and per
+      'forward'. *)
+  Theorem final_counts a b acts rsn c :
+    let evs := snd (final a b acts rsn c) in
+    (mem ADel acts = true -> (count is_report_ev evs <= 1)%nat /\ count is_tx_ev evs = 0%nat)
+    /\ (mem ADlv acts && mem AFwd acts = false -> (count is_report_ev evs <= 1)%nat)
+    /\ (count is_deliver_ev evs <= 1)%nat /\ (count is_tx_ev evs <= 1)%nat.
+  Proof.
+    cbv zeta. rewrite final_eq.
+    assert (E0 : count is_report_ev (if c then [EvDeliver b] else []) = 0%nat
+                 /\ (count is_deliver_ev (if c then [EvDeliver b] else []) <= 1)%nat
+                 /\ count is_tx_ev (if c then [EvDeliver b] else []) = 0%nat) by (destruct c; cbn; lia).
+    destruct E0 as (E1 & E2 & E3).
+    destruct (finish_counts a b b acts rsn) as (F1 & F2 & F3).
+    destruct (mem ADel acts) eqn:Hdel; cbn [snd].
+    - rewrite !count_app, E1, E3, F2, F3. repeat split; intros; lia.
+    - set (a1 := if mem ADlv acts then fst (finish a b b acts rsn) else a).
+      destruct (do_fwd_counts a1 b acts rsn) as (G1 & G2 & G3).
+      rewrite !count_app, E1, E3.
+      destruct (mem ADlv acts), (mem AFwd acts); cbn [andb]; rewrite ?F2, ?F3, ?G2; cbn [count filter length];
+        repeat split; intros; try discriminate; lia.
+  Qed.
+
+  Lemma chain_acts_exclusive a b : mem ADlv (chain_acts a b) && mem AFwd (chain_acts a b) = false.
+  Proof.
+    unfold chain_acts. rewrite (mem_app_step AFwd) by discriminate. rewrite (mem_app_step ADlv) by discriminate.
+    unfold BpAgent.sec_step.
+    destruct (route_actions_shape a b) as [H|(x & _ & H)]; rewrite H.
+    - destruct (b_sec b); reflexivity.
+    - destruct x, (b_sec b); reflexivity.
+  Qed.
+
+  (** One call of recv_bundle: at most one status report is built, at most one delivery callback fires, the
+      bundle is handed to a CL at most once (whole or as one set of fragments), and a bundle whose record
+      holds 'delete' is not handed to a CL. *)
+  Theorem one_finish a b :
+    let evs := snd (fst (recv_core a b)) in
+    (count is_report_ev evs <= 1)%nat /\ (count is_deliver_ev evs <= 1)%nat /\ (count is_tx_ev evs <= 1)%nat.
+  Proof.
+    cbv zeta. destruct (accepted a b) eqn:Hacc.
+    - rewrite (recv_core_accepted a b Hacc).
+      destruct (mem ADlv (route_actions a b) && is_frag b) eqn:C.
+      + destruct (snd (reasm_step (a_reasm a) b)); cbn [fst snd]; try (cbn; lia).
+        apply andb_true_iff in C. destruct C as [C _]. rewrite (route_actions_deliver a b C).
+        destruct (final_counts (set_reasm (seen_add a b) (fst (reasm_step (a_reasm a) b))) b [ARecv; ADlv] None false)
+          as (_ & H2 & H3 & H4).
+        split; [apply H2; reflexivity|]. split; assumption.
+      + cbn [fst snd].
+        destruct (final_counts (seen_add a b) b (chain_acts a b) (snd (sec_step b (route_actions a b)))
+                               (mem ADlv (fst (sec_step b (route_actions a b))))) as (_ & H2 & H3 & H4).
+        split; [apply H2; apply chain_acts_exclusive|]. split; assumption.
+    - rewrite (recv_core_rejected a b Hacc). cbn. lia.
+  Qed.
 End WithMatch.
 
 (** * Closed witnesses (evaluated inside Coq) *)
@@ -1066,7 +1209,7 @@ Definition ALL_REPORT_FLAGS : N :=
     Route patterns: 0 (rx) matches EID 9 only, 1000 (tx) matches EID 7 only, 1001 (tx) matches EID 9 only. *)
 Definition w_matches : N -> eid -> bool := table_matches [(0, 9); (1000, 7); (1001, 9)].
 Definition w_bundle (time seq : N) (frag : option (N * N)) : bundle :=
-  mkBundle 5 9 7 time seq frag ALL_REPORT_FLAGS 5 true None 0 95 true.
+  mkBundle 5 9 7 time seq frag ALL_REPORT_FLAGS 5 true None 0 95 true false.
 Definition w_agent (rx : list (N * action)) (tx : list txroute) : agent :=
   mkAgent 1 [2] rx tx [] [] 800000000000 0.
 Definition w_rpt_route : txroute := mkTx 1000 true None 0.
@@ -1156,6 +1299,7 @@ Lemma asserted_occurred_partial_r matches a b r :
   mem ADlv (route_actions matches a b) && is_frag b = false ->
   (forall k, send_path matches a (b_dst b) (b_size b) (has_flag (b_flags b) FLAG_NO_FRAGMENT) (is_frag b) (b_fragfeas b)
              <> SentFrags k false) ->
+  b_refuse b = false ->
   forall s, asserted r s = requested b s && occurred (snd (fst (recv_core matches a b))) s.
 Proof. intros H. apply reports_of_in in H. apply (asserted_occurred_partial matches a b r H). Qed.
 
